@@ -110,6 +110,12 @@ add("C17", "exploration", "svmc-E1",
     "Identifier classification of the model is exact for the alphabet used; rank 127 of the window is not asserted; maps with tied positions are not asserted.",
     "DESIGN.md 4/C17")
 
+add("C05", "exploration", "svmc-E1",
+    "bounded-exhaustive enumeration of byte strings, deviation-bounded documents and fixture mutations on every entry point, with panic / time / allocation oracles",
+    "Three bounded layers, all enumerated (not sampled): B every short byte string (256 values to length 2, a 24-byte JSON/VLQ alphabet to length 4/5, every mappings / rangeMappings string to length 4/5 over 12 characters inside a valid document); D three valid baselines and every combination of <=2 (thorough: also triples over a thinned menu) deviations from a menu of ~300 per baseline (keys missing/null/wrong type/repeated, extreme numbers, array mismatches, the VLQ menu in every field position, rangeMappings bit positions, extreme offsets, nesting depth 1..1000, Hermes payloads); F every single-byte delete/duplicate/replace of the repository's fixtures and inline test documents plus truncations of the large ones. Every decoded map is put through all read-only queries, formatting, function-name resolution, rewrite (8 option sets), flatten and re-serialisation; overflow checks are on; a hang watchdog and an allocation budget are enforced.",
+    "The property quantifies over all byte strings; only the stated layers are covered (the weakest fit of this family, see DESIGN 7). Allocation = bytes requested by the calling thread.",
+    "DESIGN.md 4/C05")
+
 NOT_YET = {}
 
 def main():
